@@ -395,6 +395,25 @@ def rm(ctx):
                 ctx.check(ok_src, inst + '/all-elements', body, 'every listed element is visited',
                           'the subtraction loop does not range over all elements listed in the remove (key %s)' % fmt(key),
                           line=line, details=det, props=props)
+                # (a') .. for every listed element the replica holds, whatever the remove clock is relative to the replica clock: a
+                # remove that is ahead of (or concurrent with) the replica still takes the dots it covers away NOW
+                from .loops import loop_of_block
+                lp_e = loop_of_block(it, bb)
+
+                def has_atom(t):
+                    return presence_atom(t, 1, r['entries'], 'has')
+                skipped = None
+                for o_ in PARTIAL:
+                    rc_o = Reach(facts, body, Evaluator(facts, classify=defer_classifier([], r['clock']), bool_atom=has_atom,
+                                                        assumption={'defer': o_, 'has': True}))
+                    if lp_e is not None:
+                        if not lp_e.must(rc_o, [bb]) or not rc_o.must_pass([lp_e.head]):
+                            skipped = o_
+                    elif not rc_o.must_pass([bb]):
+                        skipped = o_
+                ctx.check(skipped is None, inst + '/always', body, 'the covered dots are taken away on every path, for every listed element that is present',
+                          'when the remove clock is %s relative to the replica clock a listed element the replica holds can keep the dots the remove covers '
+                          '(the subtraction is skipped)' % skipped, line=line, details=det, props=props + ['C09'])
                 # (b) prune exactly when empty
                 elem_id = versionless(it.calls[bb].args[0].val)
 
